@@ -37,6 +37,10 @@ pub struct Seq {
     /// slices of n bytes (the vectored entry point must respect the capacity as well).
     #[serde(default, skip_serializing_if = "Vec::is_empty")]
     pub vectored: Vec<u8>,
+    /// Run the sequence on the build of the channel without the `coop` feature (no budget bookkeeping inside the
+    /// channel; `budget` is then ignored by the channel itself).
+    #[serde(default)]
+    pub nocoop: bool,
 }
 
 /// Either `{seed, batch}` (sequences generated from the seed) or `{seqs}` (explicit).
@@ -79,7 +83,7 @@ impl ChanScenario {
         match (&self.seqs, self.seed) {
             (Some(s), _) => s[i].clone(),
             (None, Some(seed)) => gen_seq(seed, i as u64),
-            (None, None) => Seq { cap: 1, budget: None, ops: vec![], wakers: vec![], vectored: vec![] },
+            (None, None) => Seq { cap: 1, budget: None, ops: vec![], wakers: vec![], vectored: vec![], nocoop: false },
         }
     }
 
@@ -204,7 +208,9 @@ pub fn gen_seq(seed: u64, idx: u64) -> Seq {
             vectored.push(if vr.chance(1, 2) { vr.range(1, 4) as u8 } else { 0 });
         }
     }
-    Seq { cap, budget, ops, wakers, vectored }
+    // A fifth of the sequences run on the channel built without the coop feature (always without forced yields).
+    let nocoop = budget.is_none() && Rng::new(mix(seed, "chan-nocoop", idx)).chance(1, 3);
+    Seq { cap, budget, ops, wakers, vectored, nocoop }
 }
 
 fn single(seq: Seq) -> ChanScenario {
